@@ -128,6 +128,7 @@ type Exec struct {
 	randDraws   int
 	digests     []digestTerm
 	schedND     bool
+	schedPoints int
 	globApps    [][2]string
 	maxRand     int
 	maxCex      int
@@ -1273,6 +1274,38 @@ func (e *Exec) ropeEq(a, b symStr) value {
 	// a single token against a composite: decide by structure where possible
 	pa = append([]piece{}, pa...)
 	pb = append([]piece{}, pb...)
+	// strip what the two sides visibly share at the end (the loop below consumes shared
+	// prefixes): x+t == y+t <=> x == y, and literals that end differently differ
+	for len(pa) > 0 && len(pb) > 0 {
+		x, y := pa[len(pa)-1], pb[len(pb)-1]
+		if x.k == pLit && y.k == pLit {
+			n := 0
+			for n < len(x.lit) && n < len(y.lit) && x.lit[len(x.lit)-1-n] == y.lit[len(y.lit)-1-n] {
+				n++
+			}
+			if n < len(x.lit) && n < len(y.lit) {
+				return false
+			}
+			pa[len(pa)-1].lit = x.lit[:len(x.lit)-n]
+			pb[len(pb)-1].lit = y.lit[:len(y.lit)-n]
+			if pa[len(pa)-1].lit == "" {
+				pa = pa[:len(pa)-1]
+			}
+			if pb[len(pb)-1].lit == "" {
+				pb = pb[:len(pb)-1]
+			}
+			if n == 0 {
+				break
+			}
+			continue
+		}
+		if x.k != pLit && x.k == y.k && x.t == y.t && x.fmtc == y.fmtc {
+			pa = pa[:len(pa)-1]
+			pb = pb[:len(pb)-1]
+			continue
+		}
+		break
+	}
 	var conj []string
 	i, j := 0, 0
 	for i < len(pa) && j < len(pb) {
